@@ -547,6 +547,121 @@ impl SlotState {
     pub open spec fn spec_s2n(&self, b: BlockHash) -> bool {
         self.cond_votes(b) && self.cond_parent(b) && self.cond_own(b)
     }
+    // ---- completeness ("raised as soon as all of its conditions hold, whichever of them arrives last"): an invariant across calls
+    pub open spec fn weakest(&self, b: BlockHash) -> bool { at_least_pct(Self::map_stake(self.voted_stakes.notar@, b), self.total(), 20) }
+    pub open spec fn own_none(&self) -> bool { self.votes.skip@[self.own()] is None && self.votes.notar@[self.own()] is None }
+    // for one block b; `e`: the node's own vote has just been stored and the waiting list has not been re-examined yet
+    pub open spec fn inv_b(&self, b: BlockHash, e: bool) -> bool {
+        // the signal has been raised for every block whose conditions hold (or, during `e`, the block is on the waiting list)
+        &&& (self.spec_s2n(b) ==> self.sent_safe_to_notar@.contains(b) || (e && self.pending_safe_to_notar@.contains(b)))
+        // a block that only lacks votes is on the waiting list (re-examined with every skip vote) ...
+        &&& (self.weakest(b) && !self.cond_votes(b) ==> self.pending_safe_to_notar@.contains(b))
+        // ... and so is a block that only lacks the node's own vote (re-examined when the own vote arrives)
+        &&& (self.cond_votes(b) && self.cond_parent(b) && self.own_none() ==> self.pending_safe_to_notar@.contains(b))
+        // a raised signal stays justified
+        &&& (self.sent_safe_to_notar@.contains(b) ==> self.cond_votes(b) && self.cond_parent(b) && !self.own_none())
+    }
+    pub open spec fn s2n_inv(&self, e: bool) -> bool { forall|b: BlockHash| #[trigger] self.inv_b(b, e) }
+    // THEOREM (C06, "raised as soon as all of its conditions hold, whichever of them - a vote, the node's own vote, the block, or the
+    // parent's certificate - arrives last"): the invariant holds for an empty slot state (lemma below) and is kept by every
+    // operation of SlotState that can change a condition - add_vote (any vote, the node's own included), notify_parent_known,
+    // notify_parent_certified (contracts on the real bodies, obligation C06.completeness_invariant_is_kept; add_cert touches none
+    // of the fields it reads).  Hence after every operation: a block whose conditions hold has had its signal.
+    pub proof fn theorem_safe_to_notar_is_raised_as_soon_as_its_conditions_hold(s: &SlotState, b: BlockHash)
+        requires s.s2n_inv(false), s.spec_s2n(b),
+        ensures s.sent_safe_to_notar@.contains(b),
+    {
+        assert(s.inv_b(b, false));
+    }
+    // a slot state in which nothing has been counted and nothing signalled satisfies the completeness invariant (SlotState::new)
+    pub proof fn lemma_inv_of_an_empty_state(s: &SlotState)
+        requires
+            s.total() > 0, s.voted_stakes.notar@ == Map::<BlockHash, Stake>::empty(),
+            s.sent_safe_to_notar@ == Set::<BlockHash>::empty(),
+        ensures s.s2n_inv(false),
+    {
+        assert forall|b: BlockHash| #[trigger] s.inv_b(b, false) by {
+            assert(Self::map_stake(s.voted_stakes.notar@, b) == 0);
+            assert(!s.weakest(b) && !s.cond_votes(b));
+        }
+    }
+    // counting a notarize vote for block h: only h's own conditions move, and only towards holding
+    pub proof fn lemma_inv_after_notar_count(pre: &SlotState, mid: &SlotState, h: BlockHash, stake: int)
+        requires
+            stake >= 0,
+            Self::map_stake(mid.voted_stakes.notar@, h) == Self::map_stake(pre.voted_stakes.notar@, h) + stake,
+            forall|g: BlockHash| g != h ==> Self::map_stake(mid.voted_stakes.notar@, g) == Self::map_stake(pre.voted_stakes.notar@, g),
+            mid.voted_stakes.skip == pre.voted_stakes.skip, mid.votes == pre.votes, mid.parents == pre.parents, mid.epoch_info == pre.epoch_info,
+            mid.sent_safe_to_notar == pre.sent_safe_to_notar, mid.pending_safe_to_notar == pre.pending_safe_to_notar,
+        ensures
+            forall|g: BlockHash, e: bool| g != h ==> #[trigger] mid.inv_b(g, e) == pre.inv_b(g, e),
+            pre.cond_votes(h) ==> mid.cond_votes(h),
+            mid.cond_parent(h) == pre.cond_parent(h), mid.own_none() == pre.own_none(),
+    {
+        assert forall|g: BlockHash, e: bool| g != h implies #[trigger] mid.inv_b(g, e) == pre.inv_b(g, e) by {
+            assert(mid.cond_votes(g) == pre.cond_votes(g));
+            assert(mid.weakest(g) == pre.weakest(g));
+        }
+        let n0 = Self::map_stake(pre.voted_stakes.notar@, h);
+        let n1 = Self::map_stake(mid.voted_stakes.notar@, h);
+        let sk = pre.voted_stakes.skip.0 as int;
+        let t = pre.total();
+        assert(n1 * 100 >= n0 * 100 && (n1 + sk) * 100 >= (n0 + sk) * 100) by (nonlinear_arith) requires n1 == n0 + stake, stake >= 0 {}
+    }
+    // the invariant after the block just counted for has been examined (or had its signal before)
+    pub proof fn lemma_inv_after_examining(pre: &SlotState, mid: &SlotState, aft: &SlotState, h: BlockHash, e: bool)
+        requires
+            pre.s2n_inv(e),
+            forall|g: BlockHash, x: bool| g != h ==> #[trigger] mid.inv_b(g, x) == pre.inv_b(g, x),
+            pre.cond_votes(h) ==> mid.cond_votes(h), mid.cond_parent(h) == pre.cond_parent(h), mid.own_none() == pre.own_none(),
+            mid.sent_safe_to_notar == pre.sent_safe_to_notar,
+            // either the block had its signal (nothing was done) or it has been examined
+            (mid.sent_safe_to_notar@.contains(h) && aft == mid)
+                || (!mid.sent_safe_to_notar@.contains(h) && aft.inv_b(h, false)
+                    && forall|g: BlockHash, x: bool| g != h ==> #[trigger] aft.inv_b(g, x) == mid.inv_b(g, x)),
+        ensures aft.s2n_inv(e),
+    {
+        assert forall|g: BlockHash| #[trigger] aft.inv_b(g, e) by {
+            assert(pre.inv_b(g, e));
+            if g != h { assert(mid.inv_b(g, e)); }
+            else { assert(pre.inv_b(h, e)); }
+        }
+    }
+    // storing an admissible vote (it is counted afterwards) keeps the completeness invariant - in its `e` form if the vote is the
+    // node's own: its first skip / notarize vote makes blocks eligible that were waiting for exactly that
+    pub proof fn lemma_inv_after_store(pre: &SlotState, st: &SlotState, vote: Vote)
+        requires
+            pre.s2n_inv(false), pre.admissible(vote), pre.wf_votes(), 0 <= pre.own() < pre.nv(),
+            st.voted_stakes.notar == pre.voted_stakes.notar, st.voted_stakes.skip == pre.voted_stakes.skip,
+            st.parents == pre.parents, st.sent_safe_to_notar == pre.sent_safe_to_notar,
+            st.pending_safe_to_notar == pre.pending_safe_to_notar, st.epoch_info == pre.epoch_info,
+            st.votes.vv(vote.spec_signer().0 as int) == vv_add(pre.votes.vv(vote.spec_signer().0 as int), vote.spec_kind()),
+            forall|u: int| 0 <= u < pre.nv() && u != vote.spec_signer().0 ==> #[trigger] st.votes.vv(u) == pre.votes.vv(u),
+        ensures
+            st.s2n_inv(vote.spec_signer() == pre.epoch_info.own_id),
+    {
+        let own = pre.own();
+        let e = vote.spec_signer() == pre.epoch_info.own_id;
+        let a = pre.votes.vv(own);
+        let c = st.votes.vv(own);
+        lemma_c04_expand(pre.votes.vv(vote.spec_signer().0 as int), vote.spec_kind());
+        // the node's own initial vote as the state sees it: a skip flag and the notarized block
+        assert forall|b: BlockHash| #![auto] pre.cond_own(b) == (a.skip || (a.notar is Some && a.notar != Some(b))) by {}
+        assert forall|b: BlockHash| #![auto] st.cond_own(b) == (c.skip || (c.notar is Some && c.notar != Some(b))) by {}
+        assert(pre.own_none() == (!a.skip && a.notar is None));
+        assert(st.own_none() == (!c.skip && c.notar is None));
+        assert forall|b: BlockHash| #[trigger] st.inv_b(b, e) by {
+            assert(pre.inv_b(b, false));
+            assert(st.cond_votes(b) == pre.cond_votes(b) && st.cond_parent(b) == pre.cond_parent(b) && st.weakest(b) == pre.weakest(b));
+            if vote.spec_signer().0 as int != own {
+                assert(c == a);
+            } else if c.skip == a.skip && c.notar == a.notar {
+            } else {
+                // the own vote entered the skip / notar entry: it was the first one
+                assert(pre.own_none());
+            }
+        }
+    }
     // "it notarized some block in s and skip stake plus notarize stake for all but the most-voted block >= 40%"
     pub open spec fn spec_s2s(&self) -> bool {
         self.votes.notar@[self.own()] is Some
